@@ -1397,11 +1397,15 @@ def histograms(rows):
     backends, ntx, crashin = {}, {}, {}
     lp_states, lp_out = {}, {}
     retried, retry_cases = {}, {}
+    db_opts = {}
     heights = []
     nsteps = 0
     for r in rows:
         types[r["chan_type"]] = types.get(r["chan_type"], 0) + 1
         backends[r.get("backend", "bbolt")] = backends.get(r.get("backend", "bbolt"), 0) + 1
+        for p_, o in sorted((r.get("db_opts") or {}).items()):
+            k = ",".join(sorted(k for k, v in o.items() if v)) or "-"
+            db_opts[k] = db_opts.get(k, 0) + 1
         if r.get("kvdb_retry"):
             retry_cases[r.get("backend", "bbolt")] = retry_cases.get(r.get("backend", "bbolt"), 0) + 1
         if r.get("aborted"):
@@ -1453,7 +1457,7 @@ def histograms(rows):
     return {"cases": len(rows), "steps": nsteps, "chan_types": types, "op_results": ops,
             "delivered_kinds": kinds, "resync_retransmissions": sync, "aborted": aborted,
             "liveprobe_states": lp_states, "liveprobe_answers": lp_out,
-            "kvdb_retry_cases": retry_cases, "retried_transactions": retried,
+            "db_opts": db_opts, "kvdb_retry_cases": retry_cases, "retried_transactions": retried,
             "kvdb_backends": backends, "rw_transactions_per_call": ntx, "write_level_crashes": crashin,
             "min_final_height_median": heights[len(heights) // 2] if heights else None,
             "min_final_height_min": heights[0] if heights else None}
